@@ -118,6 +118,8 @@ class ContractDB:
         self.spec_builtins = dict(SPEC_BUILTINS)
         self.assumed_collaborators = set()
         self.const_overrides = {}
+        self.exports = {}
+        self.total_getattr = set()
         # abstract kinds whose instances have no __bool__/__len__ (always truthy)
         self.always_truthy = {"type", "XmlMeta", "XmlVar", "XmlNode", "Builder", "Converter", "ParserConfig", "XmlContext",
                               "ClassType", "Logger", "Match", "Model"}
@@ -158,7 +160,10 @@ class ContractDB:
     def make_value(self, ex, st, spec, base="p"):
         """Build a fresh symbolic value from a sort spec (string mini-language or callable)."""
         if callable(spec):
-            return spec(Maker(ex, st, self), base)
+            mk = Maker(ex, st, self)
+            v = spec(mk, base)
+            self.exports.update(mk.exports)
+            return v
         if not isinstance(spec, str):
             return spec  # a concrete value
         spec = spec.strip()
@@ -427,6 +432,12 @@ def _sb_loops_exhausted(ex, st, args, kwargs):
     yield st, all(done for _, done in st.ghost.get("loops", ()))
 
 
+def _sb_py_repr(ex, st, args, kwargs):
+    from .builtins_calls import _repr
+
+    yield from _repr(ex, st, list(args), {})
+
+
 def _sb_py_strip(ex, st, args, kwargs):
     (s,) = args
     for st1, w in ex.narrow(st, s):
@@ -436,7 +447,7 @@ def _sb_py_strip(ex, st, args, kwargs):
             yield st1, bm.model_strip(ex, st1, w)
 
 
-SPEC_BUILTINS = {"loops_exhausted": _sb_loops_exhausted, "call_kwarg": _sb_call_kwarg, "some": _sb_some, "index_at": _sb_index_at, "strip_blank": _sb_strip_blank, "pos_of": _sb_pos_of, "call_arg": _sb_call_arg, "unmodified": _sb_unmodified, "uf": _sb_uf, "called": _sb_called, "py_isalpha": _sb_py_isalpha, "py_isdigit": _sb_py_isdigit, "int_of_signed": _sb_int_of_signed, "strip_padded": _sb_strip_padded, "strip_unique": _sb_strip_unique, "py_strip": _sb_py_strip, "pad": _sb_pad, "matches": _sb_matches, "nat": _sb_nat, "key_at": _sb_key_at, "val_at": _sb_val_at,
+SPEC_BUILTINS = {"py_repr": _sb_py_repr, "loops_exhausted": _sb_loops_exhausted, "call_kwarg": _sb_call_kwarg, "some": _sb_some, "index_at": _sb_index_at, "strip_blank": _sb_strip_blank, "pos_of": _sb_pos_of, "call_arg": _sb_call_arg, "unmodified": _sb_unmodified, "uf": _sb_uf, "called": _sb_called, "py_isalpha": _sb_py_isalpha, "py_isdigit": _sb_py_isdigit, "int_of_signed": _sb_int_of_signed, "strip_padded": _sb_strip_padded, "strip_unique": _sb_strip_unique, "py_strip": _sb_py_strip, "pad": _sb_pad, "matches": _sb_matches, "nat": _sb_nat, "key_at": _sb_key_at, "val_at": _sb_val_at,
                  "same_dict": _sb_same_dict}
 
 
@@ -527,6 +538,7 @@ def pure_result(ex, st, name, returns, args):
 class Maker:
     def __init__(self, ex, st, db):
         self.ex, self.st, self.db = ex, st, db
+        self.exports = {}  # extra names usable in the contract clauses (ghost handles on parts of a value)
 
     def value(self, spec, base="p"):
         return self.db.make_value(self.ex, self.st, spec, base)
@@ -1227,6 +1239,8 @@ def verify_function(db: ContractDB, c: Contract, case=None) -> FunctionResult:
             raise SourceError(f"{c.key}: contract declares unknown parameters {sorted(extra)}")
         fr0.env.update(env)
         ghost_env = {g: db.make_value(ex, st, srt, g) for g, srt in c.ghost.items()}
+        ghost_env.update(db.exports)
+        db.exports = {}
         env = {**ghost_env, **env}
         res.param_values = dict(env)
         res.ghost_names = sorted(ghost_env)
